@@ -49,11 +49,13 @@ type qiPool struct {
 	loc       common.Location
 	owners    []*qiKey
 	attackers []*qiKey
+	quai      []*qiKey // keys whose address is in the Quai ledger of the zone (pool test)
 }
 
 const (
 	nOwnerKeys    = 6
 	nAttackerKeys = 3
+	nQuaiKeys     = 3
 )
 
 var (
@@ -70,11 +72,15 @@ func poolFor(loc common.Location) *qiPool {
 	p := &qiPool{loc: loc}
 	seed := uint64(stats.Seed())<<16 | uint64(stats.Shard())
 	ctr := uint64(0)
-	for len(p.owners)+len(p.attackers) < nOwnerKeys+nAttackerKeys {
+	for len(p.owners)+len(p.attackers) < nOwnerKeys+nAttackerKeys || len(p.quai) < nQuaiKeys {
 		k := derivedKey("c03-qi-pool", seed, uint64(loc[0])<<8|uint64(loc[1]), ctr)
 		ctr++
 		a := crypto.PubkeyToAddress(k.PublicKey, loc)
-		if _, err := a.InternalAndQiAddress(); err != nil {
+		if _, err := a.InternalAndQuaiAddress(); err == nil && len(p.quai) < nQuaiKeys {
+			p.quai = append(p.quai, newQiKey(k, loc, fmt.Sprintf("quai%d", len(p.quai))))
+			continue
+		}
+		if _, err := a.InternalAndQiAddress(); err != nil || len(p.owners)+len(p.attackers) >= nOwnerKeys+nAttackerKeys {
 			continue
 		}
 		if len(p.owners) < nOwnerKeys {
